@@ -337,6 +337,48 @@ func (e *BE) expand1(v ssa.Value) Lin {
 	return e.fresh(v)
 }
 
+// offOf returns the offset of the first byte of bytes-like value v inside the buffer it was sliced from, together
+// with that buffer (the base): a parameter, or nil when the value does not derive from a parameter by slicing.
+// For the result of a module call the offset is  off(arg0) + o  where o is a variable constrained by the callee's
+// locality postcondition.
+func (e *BE) offOf(v ssa.Value) (Lin, ssa.Value) {
+	switch x := v.(type) {
+	case *ssa.Parameter:
+		return linConst(0), x
+	case *ssa.Slice:
+		off, base := e.offOf(x.X)
+		if x.Low != nil {
+			off = off.add(e.expand(x.Low))
+		}
+		return off, base
+	case *ssa.ChangeType:
+		return e.offOf(x.X)
+	case *ssa.Convert:
+		if bytesLike(x.X.Type()) && bytesLike(x.Type()) {
+			// string(b) / []byte(s) copy: the result is not a view of the input
+			return linVar(e.id(vkey{v, "", 'o'})), nil
+		}
+	case *ssa.UnOp:
+		if x.Op == token.MUL && stringHeaderCast(x) {
+			al := x.X.(*ssa.Convert).X.(*ssa.Convert).X.(*ssa.Alloc)
+			if val, rest, ok := e.storedValue(al, nil, x); ok && len(rest) == 0 {
+				return e.offOf(val)
+			}
+		}
+	case *ssa.Extract:
+		if call, ok := x.Tuple.(*ssa.Call); ok && len(call.Call.Args) > 0 && bytesLike(call.Call.Args[0].Type()) && call.Call.StaticCallee() != nil {
+			a, base := e.offOf(call.Call.Args[0])
+			return a.add(linVar(e.id(vkey{v, "", 'o'}))), base
+		}
+	case *ssa.Call:
+		if len(x.Call.Args) > 0 && bytesLike(x.Call.Args[0].Type()) && x.Call.StaticCallee() != nil {
+			a, base := e.offOf(x.Call.Args[0])
+			return a.add(linVar(e.id(vkey{v, "", 'o'}))), base
+		}
+	}
+	return linVar(e.id(vkey{v, "", 'o'})), nil
+}
+
 // lenOf returns len(v) (kind 'l') or cap(v) (kind 'c') for slice, string, array and *array values.
 func (e *BE) lenOf(v ssa.Value, kind byte) Lin {
 	t := v.Type().Underlying()
@@ -742,6 +784,15 @@ type Contract struct {
 	// Axiom: the body is not verified (dependency or builtin semantics), only used
 	Axiom bool
 	Note  string
+	// Locality (on ok returns): bytes-like result Res is a view into the last N bytes of bytes-like parameter Param:
+	// base(Res) == Param,  off(Res) >= len(Param) - result[N],  off(Res) + len(Res) <= len(Param).
+	// Exact additionally requires the view to be exactly those N bytes (off == len - N, len == N).
+	Locality []Locality
+}
+
+type Locality struct {
+	Res, N, Param int
+	Exact         bool
 }
 
 func bytesLike(t types.Type) bool {
